@@ -149,6 +149,62 @@ Theorem C17_event_independent_of_later_requests : forall rs more sa k, (k < leng
 Proof. exact run_prefix. Qed.
 Print Assumptions C17_event_independent_of_later_requests.
 
+(* ---- concurrency: the threads of different requests interleave ---------------------------------- *)
+(* [run_alloc s a rs ranks]: the events of the requests rs when the k-th request was the
+   (nth k ranks)-th of the station to call next_sequence_number (requests made at the same
+   instant may get there in any order). In request order it is [run]: *)
+Theorem C17_allocation_in_request_order : forall s a rs, 0 <= st_seq s < 65536 ->
+  run_alloc s a rs (zrange 0 (length rs)) = run (s, a) rs.
+Proof. exact run_alloc_request_order. Qed.
+Print Assumptions C17_allocation_in_request_order.
+
+(* any order: the DENMs of an event all carry the number of the event's own call and the
+   station's identity *)
+Theorem C17_same_action_id_any_allocation_order : forall rs s a ranks k e x,
+  nth_error (run_alloc s a rs ranks) k = Some e -> In x (ev_txs e) ->
+  d_seq (tx_msg x) = ev_seq e /\ ev_seq e = seq_at s (nth k ranks 0) /\
+  d_orig_station (tx_msg x) = st_id s /\ d_hdr_station (tx_msg x) = st_id s.
+Proof. exact alloc_same_action_id. Qed.
+Print Assumptions C17_same_action_id_any_allocation_order.
+
+(* any order: events served by different calls, less than 65 536 calls apart, share no action
+   identifier *)
+Theorem C17_distinct_action_ids_any_allocation_order : forall rs s a ranks j k ej ek x y,
+  nth j ranks 0 <> nth k ranks 0 -> Z.abs (nth j ranks 0 - nth k ranks 0) < 65536 ->
+  nth_error (run_alloc s a rs ranks) j = Some ej -> nth_error (run_alloc s a rs ranks) k = Some ek ->
+  In x (ev_txs ej) -> In y (ev_txs ek) ->
+  (d_orig_station (tx_msg x), d_seq (tx_msg x)) <> (d_orig_station (tx_msg y), d_seq (tx_msg y)).
+Proof. exact alloc_distinct_action_ids. Qed.
+Print Assumptions C17_distinct_action_ids_any_allocation_order.
+
+(* the order decides the numbers and nothing else: kind, position and every field of every
+   hand-over except the sequence number (time, port, shape, area, station identity, reference
+   time, event position) are those of [run], to which the theorems above apply *)
+Theorem C17_allocation_order_changes_numbers_only : forall s a rs ranks,
+  map event_unnumbered (run_alloc s a rs ranks) = map event_unnumbered (run (s, a) rs).
+Proof. exact alloc_only_numbers_run. Qed.
+Print Assumptions C17_allocation_order_changes_numbers_only.
+
+(* Construction of the messages. Any number of DENMs under construction at one instant (jobs js:
+   station, the event's number, clock, request position), their four construction steps
+   interleaved in ANY order (order: which construction moves next; a thread switch between any
+   two steps): a construction that got its four steps has handed over exactly the DENM the
+   atomic model [send_at] hands over - its own station, number, reference time and position,
+   whatever the other constructions wrote meanwhile. *)
+Theorem C17_construction_interleaving_irrelevant : forall js order k j,
+  nth_error js k = Some j -> (4 <= count_occ Nat.eq_dec order k)%nat ->
+  nth_error (interleave js (map (fun _ => B_new) js) order) k =
+  Some (B_sent (send_at (j_sid j) (j_seq j) (j_lat j) (j_lon j) (j_now j))).
+Proof. exact construction_private. Qed.
+Print Assumptions C17_construction_interleaving_irrelevant.
+
+(* the state a construction has reached is a function of the steps IT was given *)
+Theorem C17_construction_progress : forall js order k j, nth_error js k = Some j ->
+  nth_error (interleave js (map (fun _ => B_new) js) order) k =
+  Some (build_steps (count_occ Nat.eq_dec order k) j B_new).
+Proof. exact construction_progress. Qed.
+Print Assumptions C17_construction_progress.
+
 (* ---- collision risk warning: one DENM at once ------------------------------------------------- *)
 (* Full statement: every collision-risk request hands over exactly one DENM. It is FALSE of the
    model (and of the code) when the altitude confidence of the position is an int, as the
@@ -204,6 +260,25 @@ Example C17_example_schedule :
   schedule 1000 3001 = [0; 1000; 2000; 3000] /\ schedule 100 0 = [] /\ schedule 10000 1 = [0] /\
   cdiv 2500 1000 = 3 /\ cdiv 3000 1000 = 3 /\ cdiv 0 100 = 0.
 Proof. vm_compute. repeat split. Qed.
+
+(* two constructions of one station at one instant, steps alternating; the third job is never
+   scheduled: it has handed over nothing *)
+Example C17_example_interleave :
+  let js := [{| j_sid := 77; j_seq := 5; j_now := 2000; j_lat := 1; j_lon := 2 |};
+             {| j_sid := 77; j_seq := 6; j_now := 2000; j_lat := -3; j_lon := -4 |};
+             {| j_sid := 77; j_seq := 7; j_now := 2000; j_lat := 9; j_lon := 9 |}] in
+  interleave js (map (fun _ => B_new) js) [0; 1; 0; 1; 1; 0; 1; 0]%nat =
+  [B_sent (send_at 77 5 1 2 2000); B_sent (send_at 77 6 (-3) (-4) 2000); B_new].
+Proof. vm_compute. reflexivity. Qed.
+
+(* the second and third request made at one instant, numbers taken in the opposite order *)
+Example C17_example_run_alloc :
+  map (fun e => (ev_seq e, ev_lat e, ev_lon e, map tx_time (ev_txs e)))
+      (run_alloc (fst ex_sa) (snd ex_sa) ex_rs [0; 2; 1]) =
+  [(65535, -415000000, -22500000, [1000; 2000; 3000]);
+   (1, 415000000, -22500000, [2500; 3200]);
+   (0, 900000000, -1800000000, [2600])].
+Proof. vm_compute. reflexivity. Qed.
 
 Example C17_example_run :
   map (fun e => (ev_seq e, ev_lat e, ev_lon e, map tx_time (ev_txs e))) (run ex_sa ex_rs) =
